@@ -46,8 +46,8 @@ package operation
 //@   nosafety
 //@   requires r != nil
 //@   pure
-//@   epilogue $tomb = ite(result1 == nil && result0 != nil, dom(result0), old($tomb))
-//@   ensures result1 == nil ==> result0 != nil && fresh(result0)
+//@   epilogue $tomb = ite(result1 == nil, ite(result0 != nil, dom(result0), emptyset(string)), old($tomb))
+//@   ensures result1 == nil ==> result0 == nil || fresh(result0)
 
 //@ func (*BaseOperationRepo).GetOperations
 //@   nosafety
